@@ -201,6 +201,12 @@ pub fn parse_fun_arg(it: &mut LexIterator) -> ParseResult {
         start,
     )?;
 
+    if let (true, Some(default)) = (vararg, &default) {
+        // `def f(*x = 1)` is not Python: a variadic parameter takes what is left over
+        let msg = "A vararg argument cannot have a default value";
+        return Err(Box::from(custom(msg, default.pos)));
+    }
+
     let end = default.clone().map_or(expression_type.pos, |def| def.pos);
     let node = Node::FunArg {
         vararg,
